@@ -50,6 +50,8 @@ pub struct Profile {
     pub err_returns: bool,
     /// weight of adapter operations among the miscellaneous ones
     pub adapters: u32,
+    /// weight of signal operations
+    pub signals: u32,
 }
 
 pub fn profile(name: &str) -> Profile {
@@ -77,6 +79,7 @@ pub fn profile(name: &str) -> Profile {
         modes: true,
         err_returns: false,
         adapters: 0,
+        signals: 0,
     };
     match name {
         "C01" => Profile { name: "C01", w_token: 8, reuse_bias: 4, kinds: [4, 3, 3, 4, 0, 0, 0, 0, 0], err_returns: true, ..base },
@@ -89,6 +92,7 @@ pub fn profile(name: &str) -> Profile {
         "C08" => Profile { name: "C08", kinds: [3, 3, 3, 3, 1, 3, 1, 0, 0], adapters: 3, script_len: (1, 5), script_ops: (1, 6), w_idle: 4, ..base },
         "C09" => Profile { name: "C09", kinds: [2, 1, 2, 8, 0, 0, 0, 0, 0], err_returns: true, script_len: (1, 5), ..base },
         "C10" => Profile { name: "C10", kinds: [1, 1, 1, 0, 0, 8, 5, 0, 0], w_cause: 14, ..base },
+        "C19" => Profile { name: "C19", kinds: [1, 0, 1, 0, 0, 0, 0, 0, 0], signals: 14, w_token: 4, max_sources: 3, ..base },
         "C18" => Profile { name: "C18", kinds: [1, 0, 1, 1, 0, 0, 0, 0, 10], w_token: 9, w_cause: 10, ..base },
         "C17" => Profile { name: "C17", kinds: [1, 0, 1, 0, 0, 8, 0, 0, 0], adapters: 12, w_cause: 10, max_sources: 4, natural_faults: true, ..base },
         "C12" => Profile { name: "C12", kinds: [2, 1, 8, 1, 0, 0, 0, 0, 0], w_dispatch: 10, w_advance: 5, w_cause: 3, ..base },
@@ -108,6 +112,7 @@ pub struct G {
     pub idles: Vec<Id>,
     pub tasks: Vec<Id>,
     pub adapters: Vec<Id>,
+    pub sigsrc: Vec<Id>,
     /// per-run swarm switches
     sw: Swarm,
 }
@@ -456,6 +461,9 @@ impl G {
 
     fn top_op(&mut self) -> Vec<Op> {
         let p = self.p.clone();
+        if p.signals > 0 && self.rng.below(20) < p.signals as u64 {
+            return crate::gen2::signal_op(self).into_iter().collect();
+        }
         if p.adapters > 0 && self.rng.below(40) < p.adapters as u64 {
             return crate::gen2::adapter_op(self).into_iter().collect();
         }
@@ -531,7 +539,7 @@ pub fn generate(profile_name: &str, seed: u64) -> Program {
     let p = profile(profile_name);
     let mut rng = Rng::new(seed ^ 0xC0FF_EE00_0000_0000);
     let sw = gen_swarm(&mut rng, &p);
-    let mut g = G { rng, p: p.clone(), next_id: 0, srcs: vec![], idles: vec![], tasks: vec![], adapters: vec![], sw };
+    let mut g = G { rng, p: p.clone(), next_id: 0, srcs: vec![], idles: vec![], tasks: vec![], adapters: vec![], sigsrc: vec![], sw };
     let n = g.rng.range(p.steps.0, p.steps.1);
     let mut steps = Vec::new();
     // most programs start with a few sources
